@@ -42,7 +42,15 @@ func vCheckMap(t KeyValueTree, ref *vRef, probe []byte, seek []byte, doSeek bool
 
 // vApplyOp applies one symbolic map operation to tree and reference.
 func vApplyOp(t KeyValueTree, ref *vRef, key []byte, i int) {
-	switch symx.Choose(symx.N("op", i), 3) {
+	vApplyOpKind(t, ref, key, i, -1)
+}
+
+// vApplyOpKind: kind 0 insert, 1 remove, 2 remove-existing; any other value: symbolic choice.
+func vApplyOpKind(t KeyValueTree, ref *vRef, key []byte, i int, kind int) {
+	if kind < 0 || kind > 2 {
+		kind = symx.Choose(symx.N("op", i), 3)
+	}
+	switch kind {
 	case 0:
 		val := vVal1(symx.N("val", i))
 		symx.Assert(t.Insert(vCtx, key, val) == nil, "Insert failed")
